@@ -18,13 +18,39 @@ from genlib import *
 
 LEAN_MODULES = ["MpirProofs.Props.C14"]
 THEOREMS = ["Mpir.Params.all_shipped_params_valid", "Mpir.Params.shipped_params_nonempty"]
-GEN = [gen_mparams]
+def replay_redirect(ctx):
+    """`bin/check C14 --replay F` for a replay written by the kernel or rebuild stage: the file names the harness it needs
+    (a CPU directory's kernels / a library rebuilt with another table or option); build it and make it the harness under test."""
+    if "--replay" not in sys.argv: return []
+    path = sys.argv[sys.argv.index("--replay") + 1]
+    try: txt = open(path).read()
+    except OSError: return []
+    m = re.search(r"^# directory-harness: (\S+) round (\d+)", txt, re.M)
+    if m:
+        ks = asmkern.load(ctx.build)
+        hs = [h for h in asmkern.dir_harnesses(ctx.build, ks, [m.group(1)]) if h.round == int(m.group(2))]
+        if not hs or hs[0].error: raise vlib.BuildError("cannot build the directory harness %s: %s" % (m.group(1), hs[0].error if hs else "no such directory"))
+        ctx.harness = hs[0].exe; log("replay through the kernels of mpn/x86_64/%s" % m.group(1))
+    m = re.search(r"^# rebuild: table=(\S+)\n# rebuild-cflags: (.*)\n# rebuild-configure: (.*)$", txt, re.M)
+    if m:
+        import atexit
+        if not getattr(ctx, "shipped_vectors", None): gen_mparams(ctx)
+        rel = None if m.group(1) == "-" else m.group(1); cfg = None if m.group(3).strip() == "-" else m.group(3).split()
+        tree, harness = build_variant(ctx, ("replay", "replay", rel, m.group(2), cfg), vlib.NPROC)
+        atexit.register(lambda: shutil.rmtree(tree, ignore_errors=True))
+        ctx.harness = harness; log("replay on a library rebuilt with table=%s cflags=%s configure=%s" % (rel, m.group(2), cfg))
+    return []
+
+GEN = [gen_mparams, replay_redirect]
 TRUSTED = ["tools/gen_mparams.py: threshold vectors are resolved by gcc from each shipped gmp-mparam.h + gmp-impl.h (regenerated every run); "
            "lean/Mpir/Model/ParamsValid.lean: hand-collected list of the requirements the sources state on thresholds (each clause cites file:line) — necessary conditions, not proved sufficient",
            "tools/asmkern.py: the assembly commands are re-read from the configured mpn/Makefile (.asm.o / .as.lo rules); objcopy symbol renaming; "
            "the op -> kernel map is computed from ELF relocations of the recompiled harness/ops_*.c",
            "ISA classification of kernels by disassembly mnemonics against /proc/cpuinfo flags (a misclassified kernel shows up as SIGILL = reported, not hidden)"]
-ASSUMPTIONS = ["equivalence of an assembly kernel and the C routine is differential (both against the same Lean model), not a proof about assembly text",
+ASSUMPTIONS = ["the assembly mpn_rsh_divrem_hensel_qr_1_2 (bobcat, core2, k8, nehalem, sandybridge) is exercised for n >= 3 only: it faults at n = 2 where the C routine "
+               "accepts n >= 2 ('3limb minimum' in its body, 'rdx>=1' in its header); every shipped table keeps RSH_DIVREM_HENSEL_QR_1_THRESHOLD >= 3, which is a clause of Valid (HenselOk)",
+               "mpn_sqr_basecase kernels are exercised up to n = 16 (the smallest shipped SQR_KARATSUBA_THRESHOLD), mpn_karaadd/karasub for n >= 8 as their headers require",
+               "equivalence of an assembly kernel and the C routine is differential (both against the same Lean model), not a proof about assembly text",
                "only kernels whose entry point has a harness op with the same prototype are executed; the others are listed under coverage.kernels.no_model_op",
                "a kernel is exercised standalone (called from the harness), not as a callee inside a library built for that CPU; "
                "fat-binary dispatch on other CPUs is not executed"]
@@ -250,6 +276,9 @@ def value_lines(rng, tier, thr, have):
             d = num(rl(dn, "uniform")) or 1; q = num(rl(qn))
             if rng.random() < 0.5: d <<= rng.randrange(0, 130)
             emit("c14_divexact %x %x", q * d, d)
+    for dn in around(T("INV_DIV_QR_THRESHOLD", "INV_DIV_Q_THRESHOLD"), hi=big):       # low limb of n zero, low limb of d nonzero (divexact.c q_even test)
+        d = (1 << (64 * dn)) - 1
+        emit("c14_divexact %x %x", d << 64, d); emit("c14_divexact %x %x", (d * 6) << 128, d * 2)
     # --- radix conversion
     for un in around(T("GET_STR_DC_THRESHOLD", "GET_STR_PRECOMPUTE_THRESHOLD"), hi=600, mult=(1, 2, 4)) + [1, 2]:
         for base in (10, 3, 7, 36, 62, 2, 16, 32, 45):
@@ -454,11 +483,124 @@ def deferred_stage(ctx, cov):
     cov["default_build_deferred_ops"] = {"lines": len(lines), "disagreements": len(bad)}
     return out
 
+# ------------------------------------------------------------------------------------------------ rebuild stage (thorough)
+SCRATCH = os.environ.get("VERIF_SCRATCH", "/var/tmp/asm-scratch")
+BASE_CFLAGS = "-O1 -g -Wno-error"
+VALUE_RE = re.compile(r"^(mpn|mpz|mpq|mpf)_(mul|sqr|tdiv|divrem|div|fdiv|cdiv|mod|gcd|lcm|invert|get_str|set_str|powm|pow|sizeinbase|fac|bin|fib|luc|sqrt|root|jacobi|kronecker|legendre|perfect|remove|divisible|congruent|redc|binvert|mullow|mulhigh|mulmid|toom|kara|dc_|sb_|inv_|hgcd|matrix22|out_str|inp_str|probab)")
+
+def variants(ctx):
+    """(tag, description, gmp-mparam.h to substitute or None, CFLAGS, configure arguments or None)"""
+    out = []
+    for rel, vec_ in getattr(ctx, "shipped_vectors", []):
+        out.append(("t%02d" % len(out), "table %s + WANT_ASSERT" % rel, rel, BASE_CFLAGS + " -DWANT_ASSERT=1", None))
+    out.append(("reent", "--enable-alloca=malloc-reentrant", None, BASE_CFLAGS, ["--enable-alloca=malloc-reentrant"]))
+    out.append(("tdebug", "--enable-alloca=debug --enable-assert", None, BASE_CFLAGS, ["--enable-alloca=debug", "--enable-assert"]))
+    out.append(("fat", "--enable-fat", None, BASE_CFLAGS, ["--enable-fat"]))
+    return out
+
+def build_variant(ctx, var, jobs):
+    """copy the scratch tree, substitute the table / reconfigure, make clean && make, link the standard harness -> (tree, harness)"""
+    tag, desc, rel, cflags, cfg = var
+    tree = os.path.join(SCRATCH, "c14-%d-%s" % (os.getpid(), tag))
+    shutil.rmtree(tree, ignore_errors=True); os.makedirs(SCRATCH, exist_ok=True)
+    vlib.run(["rsync", "-a", "--exclude", "asmkern", "--exclude", "harness-*", "--exclude", ".libs", "--exclude", ".ok", ctx.build + "/", tree + "/"], check=True)
+    if cfg:
+        rc, out = vlib.run("./configure %s > c14-configure.log 2>&1" % " ".join(cfg), cwd=tree, timeout=1800)
+        if rc != 0: raise vlib.BuildError("configure %s failed: %s" % (cfg, open(os.path.join(tree, "c14-configure.log")).read()[-1500:]))
+    if rel:
+        dst = os.path.join(tree, "gmp-mparam.h")
+        if os.path.islink(dst) or os.path.exists(dst): os.unlink(dst)      # a symlink into mpn/: replace it, never write through it
+        shutil.copy(os.path.join(ctx.build, rel), dst)
+    rc, out = vlib.run("make clean >/dev/null 2>&1; make -j%d CC=gcc CFLAGS='%s' 2>&1 | tail -30" % (jobs, cflags), cwd=tree, timeout=3600)
+    if not os.path.exists(os.path.join(tree, ".libs", "libmpir.a")):
+        raise vlib.BuildError("library build failed for %s:\n%s" % (desc, out[-2500:]))
+    return tree, vlib.get_harness(tree, "plain", "-no-pie" if cfg and "--enable-fat" in cfg else "")     # fat_entry.o uses absolute relocations
+
+def other_value_lines(ctx, tree, harness, cap=15000):
+    """value-level op lines of the other properties' generators (quick tier), generated against the rebuilt tree"""
+    class C: pass
+    c2 = C(); c2.__dict__.update(ctx.__dict__); c2.build = tree; c2.harness = harness
+    pdir = os.path.dirname(os.path.abspath(__file__)); out = []; have = harness_op_names()
+    for f in sorted(glob.glob(os.path.join(pdir, "c*.py"))):
+        name = os.path.basename(f)[:-3]
+        if name.startswith("c14") or "def gen_ops" not in open(f).read(): continue
+        try:
+            m = importlib.import_module("props." + name); tg = time.time(); n = 0
+            for ln in m.gen_ops(random.Random("C14-%s-%d" % (name, ctx.seed)), "quick", c2):
+                op = ln.split(" ", 1)[0]
+                if VALUE_RE.match(op) and op in have: out.append(ln); n += 1
+                if n >= cap // 4 or time.time() - tg > 60: break
+        except Exception as e:
+            log("generator props.%s skipped in rebuild stage: %s" % (name, str(e)[:200]))
+    return out[:cap]
+
+def run_variant(ctx, var, jobs, cov):
+    tag, desc, rel, cflags, cfg = var
+    t0 = time.time(); tree = None; out = []; info = {"what": desc}
+    try:
+        tree, harness = build_variant(ctx, var, jobs)
+        info["build_s"] = round(time.time() - t0, 1)
+        have = harness_op_names()
+        thr = dict(dict(getattr(ctx, "shipped_vectors", [])).get(rel, [])) if rel else sel_vector(ctx)
+        rng = random.Random("C14-var-%s-%d" % (tag, ctx.seed))
+        lines = value_lines(rng, "thorough" if rel else "quick", thr, have)
+        if not rel:        # option builds: also the kernels (fat: the dispatched ones) and the optional-kernel ops
+            lines += kernel_lines(rng, "quick", have)
+            probe_have = set(have)
+            lines += [l for l in kext_lines(rng, "quick", probe_have)]
+        lines += other_value_lines(ctx, tree, harness)
+        for f in sorted(glob.glob(os.path.join(vlib.VERIF, "corpus", ctx.pid, "*.ops"))):       # past failures, on every rebuilt library
+            lines += [l.rstrip("\n") for l in open(f) if l.strip() and not l.startswith(("#", "@"))]
+        rc, impl, err = vlib.run_stream(harness, lines, timeout=3600)
+        ok_n = min(len(impl), len(lines))
+        keep = [i for i in range(ok_n) if "!nokernel" not in impl[i]]
+        l2 = [lines[i] for i in keep]; i2 = [impl[i] for i in keep]
+        rc2, model, err2 = vlib.run_stream(ctx.driver, [a + " => " + b for a, b in zip(l2, i2)])
+        if rc2 != 0 or len(model) != len(l2): raise RuntimeError("Lean driver failed in rebuild stage: %s" % err2[-800:])
+        bad = [(ln, a, b, "") for _, ln, a, b in vlib.diff_streams(l2, i2, model)]
+        if rc != 0 or len(impl) != len(lines):
+            bad.insert(0, (lines[ok_n] if ok_n < len(lines) else "<eof>", "<crash rc=%d> %s" % (rc, (err.strip().split("\n") or [""])[-1][:300]), "<no crash>", err[-3000:]))
+        info["lines"] = len(l2); info["disagreements"] = len(bad); info["ops"] = dict(collections.Counter(l.split(" ", 1)[0] for l in l2))
+        seen = set()
+        for ln, a, b, note in sorted(bad, key=lambda t: len(t[0])):
+            op = ln.split(" ", 1)[0]
+            if op in seen: continue
+            seen.add(op)
+            p = replay_path(ctx.pid)
+            with open(p, "w") as f:
+                f.write("# property %s  seed %d  tier %s  stage rebuild\n# rebuild: table=%s\n# rebuild-cflags: %s\n# rebuild-configure: %s\n" % (ctx.pid, ctx.seed, ctx.tier, rel or "-", cflags, " ".join(cfg or []) or "-"))
+                f.write("# op: %s\n# implementation (library rebuilt as above): %s\n# model/spec: %s\n" % (ln[:2000], a[:2000], b[:2000]))
+                if note: f.write("".join("# " + l + "\n" for l in note.split("\n")[-40:]))
+                f.write(ln + "\n")
+            print("DISAGREE under %s: %s\n  impl : %s\n  model: %s" % (desc, ln[:300], a[:300], b[:300]))
+            out.append(("rebuild %s | %s | impl=%s | model=%s" % (desc, ln[:300], a[:200], b[:200]), p))
+    finally:
+        if tree: shutil.rmtree(tree, ignore_errors=True)
+    info["wall_s"] = round(time.time() - t0, 1)
+    cov.setdefault("rebuilds", {})[tag] = info
+    log("rebuild %-60s %5d lines, %d disagreements, %.0fs" % (desc, info.get("lines", 0), info.get("disagreements", 0), time.time() - t0))
+    return out
+
+def rebuild_stage(ctx, cov):
+    if ctx.tier != "thorough": 
+        cov["rebuilds"] = {"skipped": "thorough tier only (one library build per shipped gmp-mparam.h and per configure option)"}
+        return []
+    from concurrent.futures import ThreadPoolExecutor
+    vs = variants(ctx); par = 4; jobs = max(2, vlib.NPROC // par)
+    only = os.environ.get("C14_REBUILD_ONLY")          # debugging aid: comma-separated tags
+    if only: vs = [v for v in vs if v[0] in only.split(",")]
+    out = []
+    with ThreadPoolExecutor(max_workers=par) as ex:
+        for r in ex.map(lambda v: run_variant(ctx, v, jobs, cov), vs): out += r
+    return out
+
 def extra(ctx, cov):
     out = []
     if getattr(ctx, "driver", None) is None: return out
-    out += deferred_stage(ctx, cov)
-    out += kernel_stage(ctx, cov)
+    stages = os.environ.get("C14_STAGES", "deferred,kernel,rebuild").split(",")       # debugging aid; default = everything
+    if "deferred" in stages: out += deferred_stage(ctx, cov)
+    if "kernel" in stages: out += kernel_stage(ctx, cov)
+    if "rebuild" in stages: out += rebuild_stage(ctx, cov)
     return out
 
 # ------------------------------------------------------------------------------------------------ replay CLI
